@@ -1,5 +1,5 @@
 #!/bin/sh
-# Self-test of the translator on testdata/sample (constructs of sessions 4, 5, 6 and 7): translates the package, runs the
+# Self-test of the translator on testdata/sample (constructs of sessions 4, 5, 6, 7 and 8): translates the package, runs the
 # translation in Lean (testdata/run.lean) and compares, line by line, with what the Go code prints
 # (testdata/cmd/run); then checks that the functions that must be rejected are rejected.
 #   usage: tools/go2lean/selftest.sh        (from anywhere; needs go, lake)
@@ -15,9 +15,9 @@ trap 'rm -rf "$tmp" "$verif/lean/SelfTestTmp.lean"' EXIT
 (grep -v '^end GoUefi.Gen' "$tmp/Sample.lean"; echo 'end GoUefi.Gen'; cat "$here/testdata/run.lean") >"$verif/lean/SelfTestTmp.lean"
 (cd "$verif/lean" && lake env lean SelfTestTmp.lean) >"$tmp/lean.out"
 diff "$tmp/go.out" "$tmp/lean.out" || { echo "selftest: the translation and the Go code print different lines"; exit 1; }
-for f in ShortRead First Word TwoLens Stringer Verb Skips Outer.Promoted Outer.PtrBox Narrow Window Box.Peek Box.At Box.Drain MapRange MapArg mapLen FnValue; do
+for f in ShortRead First Word TwoLens Stringer Verb Skips Outer.Promoted Outer.PtrBox Narrow Window Box.Peek Box.At Box.Drain MapRange MapArg mapLen FnValue FnParamValue; do
   grep -q "skipped sample.$f:" "$tmp/skipped.txt" || { echo "selftest: sample.$f should have been rejected"; exit 1; }
 done
 n=$(grep -c '^skipped' "$tmp/skipped.txt")
-[ "$n" = 18 ] || { echo "selftest: $n functions rejected, expected 18"; cat "$tmp/skipped.txt"; exit 1; }
-echo "selftest ok: $(wc -l <"$tmp/go.out") lines equal, 18 rejections as expected"
+[ "$n" = 19 ] || { echo "selftest: $n functions rejected, expected 19"; cat "$tmp/skipped.txt"; exit 1; }
+echo "selftest ok: $(wc -l <"$tmp/go.out") lines equal, 19 rejections as expected"
